@@ -3,7 +3,7 @@
 From Coq Require Import List NArith ZArith Bool Arith Lia Permutation.
 From SK Require Import lib.LGraph lib.C01_GraphLemmas model.C01_Model model.C02_Model model.C09_Model
   proof.C01_Proof proof.C02_Proof proof.C09_Lists proof.C09_Valid proof.C09_Canon proof.C09_Equiv.
-From SK Require model.C08_Model proof.C08_Sort proof.C08_Nauty.
+From SK Require model.C08_Model proof.C08_Sort proof.C08_Nauty model.C01_Opts proof.C01_OptsProof.
 Import ListNotations.
 
 (** hypotheses on a parsed mapped reaction (what rsmi_to_graph(expand_aam(.)) produces): simple graphs, node id =
@@ -268,3 +268,47 @@ Definition ex_S' : mgraph :=
 Example ex_equivalent_swap_accepted :
   smiles_check_its ex_S (relabel (transp 2 3) ex_S') ex_S ex_S' = true /\ smiles_check_rc ex_S (relabel (transp 2 3) ex_S') ex_S ex_S' = true.
 Proof. vm_compute. auto. Qed.
+
+(* ------------------------------------------------------------------ round 3: options *)
+(** the validator under ignore_aromaticity = ia: still exact, on the ITS / centre built with that option *)
+Theorem validator_exact_o (ia : bool) (G1 H1 G2 H2 : mgraph) : wf G2 -> wf H2 ->
+  (smiles_check_its_o ia G1 H1 G2 H2 = true <->
+     its_isomorphic (C01_Opts.its_construct_o (vopts ia) G1 H1) (C01_Opts.its_construct_o (vopts ia) G2 H2)) /\
+  (smiles_check_rc_o ia G1 H1 G2 H2 = true <->
+     its_isomorphic (get_rc (C01_Opts.its_construct_o (vopts ia) G1 H1)) (get_rc (C01_Opts.its_construct_o (vopts ia) G2 H2))).
+Proof.
+  intros W1 W2. split.
+  - unfold smiles_check_its_o. apply is_isomorphic_iff. unfold C01_Opts.its_construct_o. apply C01_OptsProof.gen_nodup; assumption.
+  - unfold smiles_check_rc_o. apply is_isomorphic_iff.
+    assert (W : wf (C01_Opts.its_construct_o (vopts ia) G2 H2)) by (unfold C01_Opts.its_construct_o; apply C01_OptsProof.gen_wf; assumption).
+    destruct (rc_wf _ W) as (A & _). exact A.
+Qed.
+(** the default option is the function of the round-2 theorems *)
+Lemma smiles_check_o_default G1 H1 G2 H2 :
+  smiles_check_its_o false G1 H1 G2 H2 = smiles_check_its G1 H1 G2 H2 /\ smiles_check_rc_o false G1 H1 G2 H2 = smiles_check_rc G1 H1 G2 H2.
+Proof.
+  unfold smiles_check_its_o, smiles_check_rc_o, smiles_check_its, smiles_check_rc, vopts.
+  change (C01_Opts.CO false false dflt_nattr) with C01_Opts.default_opts. rewrite !C01_OptsProof.construct_default. auto.
+Qed.
+(** generic back-end *)
+Lemma generic_enumerates (G : mgraph) : wf G -> enumerates (generic_order G) G.
+Proof.
+  intros (Hnd & _). assert (P : Permutation (generic_order G) (node_ids G)).
+  { unfold generic_order. rewrite <- (node_ids_to_c08 G). unfold node_ids. apply Permutation_map. apply C08_Sort.sort_by_perm. }
+  split; [eapply Permutation_NoDup; [apply Permutation_sym; exact P|exact Hnd]|].
+  intros n. split; intros I; [eapply Permutation_in; [exact P|exact I]|eapply Permutation_in; [apply Permutation_sym; exact P|exact I]].
+Qed.
+Theorem canon_generic_is_relabelling (G H : mgraph) :
+  parsed G -> parsed H -> (exists s, In s (node_ids G) /\ In s (node_ids H)) ->
+  exists (f : N -> N) (Gc Hc : mgraph) (pairs : list (N * N)),
+    (forall a b, f a = f b -> a = b) /\
+    canonicalise_generic G H = Some (set_amap Gc, pairs, set_amap Hc) /\
+    relabelled_by f G Gc /\ Hc = relabel f H /\
+    its_isomorphic (its_construct (set_amap Gc) (set_amap Hc)) (its_construct G H).
+Proof.
+  intros PG PH Hs. pose proof PG as (WG & _). pose proof (generic_enumerates G WG) as En.
+  destruct (canon_is_relabelling G H (canon_rebuild (generic_order G) G) (generic_order G) PG PH En
+              (rebuild_relabelled _ G WG En) Hs) as (f & pairs & Hc & Hinj & Fs & E & RF & EH & _ & Iso & _).
+  exists f, (canon_rebuild (generic_order G) G), Hc, pairs.
+  split; [exact Hinj|]. split; [exact E|]. split; [exact RF|]. split; [exact EH|exact Iso].
+Qed.
